@@ -132,6 +132,11 @@ impl<'a> LexicographicIterator for SortedVecLexIterator<'a> {
                 self.position = Some(pos - 1);
                 Ok(true)
             }
+            // At the end: the previous string is the last one
+            None if !self.strings.is_empty() => {
+                self.position = Some(self.strings.len() - 1);
+                Ok(true)
+            }
             _ => {
                 self.position = if self.strings.is_empty() { None } else { Some(0) };
                 Ok(false)
@@ -154,16 +159,17 @@ impl<'a> LexicographicIterator for SortedVecLexIterator<'a> {
     }
 
     fn seek_lower_bound(&mut self, target: &str) -> std::result::Result<bool, Self::Error> {
-        match self.binary_search_by(|s| s.cmp(target)) {
-            Ok(pos) => {
-                self.position = Some(pos);
-                Ok(true) // Exact match
-            }
-            Err(pos) => {
-                self.position = if pos < self.strings.len() { Some(pos) } else { None };
-                Ok(false) // No exact match
-            }
-        }
+        // First string >= target (the first of a run of duplicates, not just any of them)
+        let pos = self.strings.partition_point(|s| s.as_str() < target);
+        self.position = if pos < self.strings.len() { Some(pos) } else { None };
+        Ok(pos < self.strings.len() && self.strings[pos] == target)
+    }
+
+    fn seek_upper_bound(&mut self, target: &str) -> std::result::Result<bool, Self::Error> {
+        // First string > target (past every duplicate of the target)
+        let pos = self.strings.partition_point(|s| s.as_str() <= target);
+        self.position = if pos < self.strings.len() { Some(pos) } else { None };
+        Ok(false)
     }
 
     fn size_hint(&self) -> Option<usize> {
@@ -188,6 +194,7 @@ pub struct StreamingLexIterator<R: std::io::Read> {
     current_line: String,
     buffer: Vec<u8>,
     finished: bool,
+    has_current: bool,
     line_number: usize,
 }
 
@@ -201,6 +208,7 @@ impl<R: std::io::Read> StreamingLexIterator<R> {
             current_line: String::new(),
             buffer: Vec::with_capacity(8192), // 8KB initial buffer
             finished: false,
+            has_current: false,
             line_number: 0,
         }
     }
@@ -210,6 +218,7 @@ impl<R: std::io::Read> StreamingLexIterator<R> {
         use std::io::BufRead;
 
         self.current_line.clear();
+        self.has_current = false;
         match self.reader.read_line(&mut self.current_line) {
             Ok(0) => {
                 self.finished = true;
@@ -224,6 +233,7 @@ impl<R: std::io::Read> StreamingLexIterator<R> {
                     }
                 }
                 self.line_number += 1;
+                self.has_current = true;
                 Ok(true)
             }
             Err(e) => Err(e),
@@ -235,7 +245,8 @@ impl<R: std::io::Read> LexicographicIterator for StreamingLexIterator<R> {
     type Error = ZiporaError;
 
     fn current(&self) -> Option<&str> {
-        if self.finished || self.current_line.is_empty() {
+        // An empty line is a string too: only "nothing read" means no current string
+        if self.finished || !self.has_current {
             None
         } else {
             Some(&self.current_line)
